@@ -36,9 +36,6 @@ func init() {
 	for _, p := range []string{"C01", "C02", "C03", "C05", "C06", "C07", "C08", "C09", "C10", "C11", "C12", "C13", "C14", "C15", "C16", "C17"} {
 		replayTargets[p] = [3]string{p + "_test.go", "", "TestVerifReplay" + p}
 	}
-	for _, p := range []string{"C01", "C03", "C08", "C09", "C10", "C13"} {
-		replayTargets[p] = [3]string{"bytelayer_test.go", "", "TestVerifReplay" + p}
-	}
 }
 
 var byteLayerProp = map[string]bool{"C07": true, "C01": true, "C03": true, "C08": true, "C09": true, "C10": true, "C13": true}
@@ -126,7 +123,8 @@ func runReplay(o *checkOpts, src, pkgDir, test, hints string) []map[string]inter
 	}
 	defer os.RemoveAll(tmp)
 	dir := filepath.Join(o.repo, pkgDir)
-	ov := map[string]map[string]string{"Replace": {filepath.Join(dir, "zz_verif_replay_test.go"): src}}
+	ov := map[string]map[string]string{"Replace": {filepath.Join(dir, "zz_verif_replay_test.go"): src,
+		filepath.Join(dir, "zz_verif_common_test.go"): filepath.Join(filepath.Dir(src), "common_test.go")}}
 	ob, _ := json.Marshal(ov)
 	ovPath := filepath.Join(tmp, "ov.json")
 	os.WriteFile(ovPath, ob, 0o644)
